@@ -107,8 +107,19 @@ def run(prog, tier, res):
         c = strip(an.terms.operand(t["args"][1]))
         if c[0] == "aggr" and c[1].startswith("closure:"):
             ftabs.append([[a, v] for a, v in accept.ret_table(prog, c[1][8:])])
-    cmp(res, R3, MAIN, "event-filter", ftabs, spec["event_filter"], "event filter")
     entries = [(bb, t) for bb, t in b.calls() if short(cname(t)).endswith("::entry")]
+    # the accepting rows of the filter (the rejecting rows are their complement: the closure is a total bool function).
+    # Written as `if !matches!(..) { continue; }` in the loop, the same condition is the set of guards on the event that
+    # dominate the append site.
+    acc_rows = [sorted([a, v] for a, v in tb if v == "1") for tb in ftabs]
+    if not filt and len(entries) == 1:
+        ats = []
+        for (d, rel, vals) in an.atoms_at(entries[0][0]):
+            ats += sy.atoms(d, rel, vals)
+        simp = accept.simplify(ats, sy.sym_box)
+        row = sorted(event_atom(atom_str(a)) for a in (simp or []) if "EventId as std::convert::TryFrom<u16>>::try_from(" in atom_str(a))
+        acc_rows = [[[row, "1"]]] if row else []
+    cmp(res, R3, MAIN, "event-filter", acc_rows, [sorted([a, v] for a, v in tb if v == "1") for tb in spec["event_filter"]], "event filter")
     # in-order append of a whole slice: extend(data[.iter()[.copied()]]) or extend_from_slice(data)
     extends = [(bb, t) for bb, t in b.calls() if short(cname(t)) in ("Extend::extend", "Vec::<T, A>::extend_from_slice")]
     ok = False
@@ -297,6 +308,27 @@ def check(res, rule, ok, fn, key, what, where):
         res.hit(rule)
     else:
         res.violate(rule, fn, key, what, where)
+
+
+def event_atom(s):
+    """the event expression inside `EventView::id(..)` renamed to the closure form's `arg2`"""
+    key = "EventView::<'a>::id("
+    out, i = "", 0
+    while True:
+        j = s.find(key, i)
+        if j < 0:
+            return out + s[i:]
+        k, depth = j + len(key), 0
+        while k < len(s):
+            if s[k] == "(":
+                depth += 1
+            elif s[k] == ")":
+                if depth == 0:
+                    break
+                depth -= 1
+            k += 1
+        out += s[i:j] + key + "arg2"
+        i = k
 
 
 def cmp(res, rule, fn, key, g, w, what):
